@@ -142,6 +142,18 @@ def gen_scenario(rng, tier):
     mode = "pio" if rng.random() < 0.25 else "bytes"
     budget = 150_000
     sizes_pool = PAYLOAD_SIZES if len(pick) <= 12 else [0, 1, 17, 100, 1000]
+    r = rng.random()
+    if mode == "bytes" and r < 0.04:
+        # large payloads: beyond typical 64 KiB buffer / read-ahead windows
+        pick = pick[:6]
+        sizes_pool = [70000, 66000, 40000, 65536, 100, 30000]
+        budget = 600_000
+    elif mode == "bytes" and tier == "thorough" and r < 0.05:
+        # more than 1 MiB in a single minishard
+        bits = [0, 0, 0]
+        pick = list(range(min(n, 18)))
+        sizes_pool = [70000]
+        budget = 2_000_000
     chunks = []
     for i in pick:
         x, y, z = positions[i]
@@ -191,7 +203,17 @@ def gen_scenario(rng, tier):
             for j in range(0, m - 1, 2):
                 p[j], p[j + 1] = p[j + 1], p[j]
         add(p)
+    # second session: part of the set is stored after a first close() of the
+    # same accessor, into shards the first part did not touch
+    shard_of = [spec.route(c_, bits[2], bits[0], bits[1])[0] for c_ in cid]
+    shards_sorted = sorted(set(shard_of))
+    second = []
+    if len(shards_sorted) >= 2 and rng.random() < 0.25:
+        late = set(rng.sample(shards_sorted, rng.randint(
+            1, len(shards_sorted) - 1)))
+        second = [i for i in range(m) if shard_of[i] in late]
     sc = {"grid": grid, "cs": cs, "size": size, "bits": bits,
+          "second_session": second,
           "ienc": rng.choice(["raw", "gzip"]),
           "denc": rng.choice(["raw", "gzip"]),
           "mode": mode, "subset": kind,
@@ -199,7 +221,7 @@ def gen_scenario(rng, tier):
           "short_every": rng.choice([0, 0, 2, 5]),
           "all_perms": bool(tier == "thorough" and m <= 6
                             and rng.random() < 0.5),
-          "two_scales": rng.random() < 0.3}
+          "two_scales": (not second) and rng.random() < 0.3}
     return {"scenario": sc, "chunks": chunks, "orders": orders}
 
 
@@ -286,6 +308,10 @@ def write_order(fs, sc, chunks, order, res, tag):
             return False
     keys = keys_of(sc)
     perm = order["perm"]
+    late = set(sc.get("second_session") or [])
+    if late:
+        perm = [i for i in perm if i not in late] + ["close"] + [
+            i for i in perm if i in late]
     seq = [(0, i) for i in perm]
     if len(keys) == 2:
         # the second scale receives the same set in reverse arrival order,
@@ -293,6 +319,15 @@ def write_order(fs, sc, chunks, order, res, tag):
         seq = [q for pair in zip(seq, [(1, i) for i in reversed(perm)])
                for q in pair]
     for ki, i in seq:
+        if i == "close":
+            st, v = sut(acc.close)
+            res.probe("second_session")
+            if st == "exc":
+                res.violate("C05/store-fails", f"{tag}: intermediate close() "
+                            f"raised {v!r}",
+                            key=f"C05/close-fails/{excname(v)}")
+                return False
+            continue
         x, y, z, nb, seed = chunks[i]
         co = coords(sc, (x, y, z))
         buf = chunk_payload(chunks[i], ki)
@@ -517,7 +552,9 @@ def shrink(trace):
         if not keep:
             continue
         remap = {old: new for new, old in enumerate(keep)}
-        yield {"scenario": sc, "chunks": [chunks[i] for i in keep],
+        sc2 = dict(sc, second_session=[remap[i] for i in sc.get(
+            "second_session", []) if i in remap])
+        yield {"scenario": sc2, "chunks": [chunks[i] for i in keep],
                "orders": [dict(o, perm=[remap[i] for i in o["perm"]
                                         if i in remap]) for o in orders]}
     # simpler scenario knobs
